@@ -655,6 +655,8 @@ class ExprBuilder:
         if e[0] == "envupvar":
             # closure environment: resolve captured variable
             return self.upvar(e[1], fname)
+        if e[0] == "call" and e[1] == "std::ops::FromResidual::from_residual" and variant in ("Ok", "Some"):
+            return ("unknown", "variant-mismatch")       # the residual of `?` is an Err/None by construction
         return ("field", fname, owner, variant, e)
 
     def upvar(self, body, name):
@@ -946,11 +948,13 @@ def strip(e, transparent=TRANSPARENT_CALLS, _d=0):
                     # `x?` where x is built as Ok(p)/Some(p) | Err(..)/None: the value is p
                     xs = a[2][0]
                     xal = xs[1] if xs[0] == "phi" else (xs,)
-                    if all(y[0] == "agg" and y[2] in ("Ok", "Some", "Err", "None") for y in xal):
+                    def residual(y):
+                        return y[0] == "call" and y[1] == "std::ops::FromResidual::from_residual"   # an Err/None by construction
+                    if all((y[0] == "agg" and y[2] in ("Ok", "Some", "Err", "None")) or residual(y) for y in xal) and not all(residual(y) for y in xal):
                         for y in xal:
-                            if y[2] in ("Ok", "Some") and y[3]:
+                            if not residual(y) and y[2] in ("Ok", "Some") and y[3]:
                                 outs.append(y[3][0][1])
-                        if not any(y[2] in ("Ok", "Some") for y in xal):
+                        if not any((not residual(y)) and y[2] in ("Ok", "Some") for y in xal):
                             outs.append(("unknown", "variant-mismatch"))
                     else:
                         outs.append(("try", xs))
